@@ -177,7 +177,14 @@ static HOOK: Once = Once::new();
 /// Install a silent panic hook (once). Panics become `Outcome::Panic` values.
 pub fn silence_panics() {
     HOOK.call_once(|| {
-        std::panic::set_hook(Box::new(|_| {}));
+        std::panic::set_hook(Box::new(|info| {
+            // unwinding panics are observations (caught and judged); a non-unwinding panic aborts the
+            // process (e.g. std's "unsafe precondition(s) violated"): keep its message for the report
+            let msg = info.to_string();
+            if msg.contains("unsafe precondition") || msg.contains("misaligned") || msg.contains("null pointer") {
+                eprintln!("{msg}");
+            }
+        }));
     });
 }
 
